@@ -342,6 +342,69 @@ def g1_tour_guards(F, r):
         r.fail("Tour::set_end: closes", "setting the end no longer marks the tour closed: legs() adds a bogus open-end leg", F.loc(T + "set_end"))
 
 
+JOB_T = "vrp_core::models::problem::jobs::Job"
+
+
+def j1_job_identity(F, r):
+    """job identity: (a) an activity belongs to a job iff its ROOT job (retrieve_job: the multi job of a sub-job) equals the job — decided through `Job == Job`,
+    never by comparing the activity's sub-job directly; (b) `Job == Job` is pointer identity of the payloads of the SAME variant, one taken from each side;
+    (c) `Hash for Job` hashes the payload pointer in every variant (Eq/Hash agreement of the tour's job set)."""
+    fid = "vrp_core::models::solution::route::Activity::has_same_job"
+    if fid not in F.fns:
+        raise AnchorError(fid)
+    ok = False
+    direct = []
+    stop = {"vrp_core::models::solution::route::Activity::retrieve_job": "root"}
+    for g in F.family(fid):
+        fn = F.fns[g]
+        for bi, t in mir.calls(fn):
+            c = t["callee"]
+            if c.endswith("::ptr_eq") and "Arc" in c:
+                direct.append(t["ln"])
+            if c in ("core::cmp::PartialEq::eq", "core::cmp::PartialEq::ne") and t["ga"] and JOB_T in t["ga"][0] and len(t["args"]) == 2:
+                sides = [mir.deep_leaves(fn, a, stop)[0] for a in t["args"]]
+                roots = [any(k == "root" for k, _, _ in sd) for sd in sides]
+                others = [any(k in ("arg", "local") for k, _, _ in sd) and not any(k == "root" for k, _, _ in sd) for sd in sides]
+                if (roots[0] and others[1]) or (roots[1] and others[0]):
+                    ok = True
+    if direct:
+        r.fail("Activity::has_same_job: root job", "the activity's own (sub-)job pointer is compared directly (Arc::ptr_eq): a sub-job wrapped as a single job then matches the "
+               "activities of its multi job — Tour::remove/index/job_activities disagree with the tour's job set (half-removed multi job)", F.loc(fid, direct[0]))
+    elif ok:
+        r.ok("Activity::has_same_job: root job", "decided by `Job == Job` between retrieve_job() (the root job) and the given job")
+    else:
+        r.fail("Activity::has_same_job: root job", "the verdict is not `retrieve_job() == job` (no Job equality between the activity's root job and the argument)", F.loc(fid))
+    eqs = [m for m in F.fns if m.startswith(f"<{JOB_T} as core::cmp::PartialEq") and m.endswith("::eq")]
+    if len(eqs) != 1:
+        raise AnchorError(f"Job::eq resolves to {eqs}")
+    fn = F.fns[eqs[0]]
+    pe = [(bi, t) for bi, t in mir.calls(fn) if t["callee"].endswith("::ptr_eq")]
+    variants = [v["n"] for v in F.adts[JOB_T]["v"]]
+    payload_tys = set()
+    bad = None
+    for bi, t in pe:
+        srcs = [mir.expr(fn, a)[0] for a in t["args"]]
+        if not (srcs[0] == ("arg", 1) and srcs[1] == ("arg", 2) or srcs[0] == ("arg", 2) and srcs[1] == ("arg", 1)):
+            bad = (t["ln"], "the two pointers are not taken one from each side")
+        payload_tys.add(t["ga"][0] if t["ga"] else "?")
+    if bad:
+        r.fail("Job::eq: pointer identity", bad[1] + ": equality of jobs no longer means identity", F.loc(eqs[0], bad[0]))
+    elif len(payload_tys) != len(variants):
+        r.fail("Job::eq: pointer identity", f"{len(payload_tys)} payload types compared by pointer for {len(variants)} variants: some variant is equal/unequal without looking at the job", F.loc(eqs[0]))
+    else:
+        r.ok("Job::eq: pointer identity", f"{len(variants)} variants, each compared by Arc::ptr_eq of the two sides' payloads (same payload type by typing)")
+    hs = [m for m in F.fns if m.startswith(f"<{JOB_T} as core::hash::Hash") and m.endswith("::hash")]
+    if len(hs) != 1:
+        raise AnchorError(f"Job::hash resolves to {hs}")
+    fn = F.fns[hs[0]]
+    ptrs = {t["ga"][0] for bi, t in mir.calls(fn) if t["callee"].endswith("::as_ptr") and t["ga"]}
+    hashed = [t for bi, t in mir.calls(fn) if t["callee"] == "core::hash::Hash::hash"]
+    if len(ptrs) == len(variants) and all("*const" in (t["ga"][0] if t["ga"] else "") for t in hashed) and len(hashed) >= len(variants):
+        r.ok("Job::hash: pointer identity", "every variant hashes its payload pointer (agrees with Job::eq)")
+    else:
+        r.fail("Job::hash: pointer identity", "hash no longer the payload pointer in every variant: equal jobs may hash differently / the tour's job set loses members", F.loc(hs[0]))
+
+
 def run(ctx):
     ctx.explanation = (
         "Structural well-formedness: representation fields are private (E1), every Tour method that structurally mutates `activities` "
@@ -353,6 +416,7 @@ def run(ctx):
     ctx.run("C14-E1", "representation fields of Tour / Registry / RegistryContext are private", e1_privacy, floor=8)
     ctx.run("C14-G1", "Tour mutators keep the preconditions that hold the depot ends in place", g1_tour_guards, floor=7)
     ctx.run("C14-E2", "Tour mutators keep `jobs` in sync with `activities` on every path", e2_paired_mutation, floor=4)
+    ctx.run("C14-J1", "job identity: activity ↔ root job through Job equality; Job equality / hash = payload pointer identity", j1_job_identity, floor=3)
     ctx.run("C14-E3", "job identity of an activity is immutable after construction", e3_job_identity, floor=1)
     ctx.run("C14-R1", "registry: available set mutated only by use/free with propagated results; get_route gated on use_actor; keep_routes frees", r1_registry, floor=6)
     ctx.run("C14-D1", "deep copies are independent: owned results, Arc-shared parts immutable, no Arc::get_mut", d1_independent_copies, floor=10)
